@@ -1,5 +1,5 @@
 //! Run random connection-level scenarios against the real crate and print their traces.
-//!   conn --seed S --n N --steps K --profile P --role client|server|both [--snap 1]
+//!   conn --seed S --n N --steps K --profile P --role client|server|both [--snap 1] [--first I]   (scenarios I..N)
 //!   conn --replay file.json          (re-run the op list of one trace; prints the new trace)
 //! Output: one JSON object per scenario: {"seed":..,"cfg":..,"profile":..,"trace":[steps...]}
 use h2verif_harness::driver::{Config, Driver};
@@ -25,6 +25,9 @@ fn main() {
             }
         }
         println!("{}", json!({"cfg": d.cfg.to_json(), "trace": d.trace}));
+        if d.trace.iter().any(|st| st["res"].get("panic").is_some()) {
+            std::mem::forget(d);        // poisoned mutex: the destructors would panic while unwinding
+        }
         return;
     }
     let seed = arg_u64(&a, "seed", 1);
@@ -34,7 +37,8 @@ fn main() {
     let role = a.get("role").cloned().unwrap_or_else(|| "both".into());
     let snap = arg_u64(&a, "snap", 0) == 1;
     let mut ops_hist: std::collections::BTreeMap<String, u64> = Default::default();
-    for i in 0..n {
+    let first = arg_u64(&a, "first", 0);
+    for i in first..n {
         let mut rng = Rng::new(seed.wrapping_mul(1_000_003).wrapping_add(i));
         let client = match role.as_str() {
             "client" => true,
@@ -59,8 +63,16 @@ fn main() {
         let trace = std::mem::take(&mut d.trace);
         // dropping every handle and the connection may trip the `unstable`-only debug assertion in
         // `Drop for Store` (records still in the slab); record it instead of dying
-        let dropped = std::panic::catch_unwind(std::panic::AssertUnwindSafe(move || drop(d)));
-        println!("{}", json!({"seed": seed, "i": i, "profile": p.name, "cfg": cfgj, "settled": settled, "drop_panic": dropped.is_err(), "trace": trace}));
+        // after a panic inside the library its mutex is poisoned and the destructors of the handles panic again while
+        // unwinding (which aborts the process): leak the driver instead of dropping it
+        let lib_panicked = trace.iter().any(|st| st["res"].get("panic").is_some());
+        let dropped = if lib_panicked {
+            std::mem::forget(d);
+            Ok(())
+        } else {
+            std::panic::catch_unwind(std::panic::AssertUnwindSafe(move || drop(d)))
+        };
+        println!("{}", json!({"seed": seed, "i": i, "profile": p.name, "cfg": cfgj, "settled": settled, "drop_panic": dropped.is_err(), "lib_panicked": lib_panicked, "trace": trace}));
         h2::verif::stop();
     }
     println!("{}", json!({"summary": {"scenarios": n, "ops": ops_hist}}));
